@@ -297,6 +297,45 @@ def check(ctx):
             for m in re.finditer(r"export\s+(?:interface|type|const)\s+(⟦[^⟧]+⟧\w*)", flat):
                 out.add(m.group(1))
         return out
+    # the two generators declare the same set of types: what one removes from the used set before writing (names replaced through
+    # type_mappings), the other removes too (sibling agreement on the shrinking steps of the two generate_models implementations)
+    P = ctx.P
+    from mirlib import short_path
+    gens_ = [t for t in P.trait_impls.get("tauri_typegen::generators::base::BaseBindingsGenerator::generate_models", []) if t in P.fns]
+    shrink = {}
+    for gid in gens_:
+        ops_ = set()
+        for fid_ in P.reachable([gid]):
+            if "tauri_typegen::generators::" not in fid_:
+                continue
+            for c_ in P.fns[fid_].calls:
+                if c_.bb in P.fns[fid_].reach_blocks and short_path(c_.path) in ("HashMap::retain", "HashMap::remove", "HashMap::extract_if") and "StructInfo" in " ".join(c_.generics + [c_.self_ty or ""]):
+                    ops_.add("shrinks-used-set")
+        shrink[gid] = ops_
+    if len(gens_) == 2:
+        a_, b_ = gens_
+        if shrink[a_] == shrink[b_]:
+            r2.ok("both generate_models narrow the declared set alike (%s)" % (sorted(shrink[a_]) or "no narrowing"))
+        else:
+            lacking = a_ if not shrink[a_] else b_
+            r2.bad(V(r2.id, lacking, "declared-set-narrowed-in-one-mode", "%s does not remove from the set of declared types what the other generator removes (types replaced "
+                     "through type_mappings): the two modes declare different sets of names" % short_path(lacking)))
+    # enum literals: the plain union type and the z.enum list print the same member of the field context (sibling agreement: template hole
+    # against the Rust-side emitter)
+    lit_plain = set()
+    for p_ in T.paths_in_context("typescript/partials/enum.tera") or []:
+        flat_ = p_.flat(loop=lambda it: "".join(bp.flat() for bp in it[3][:4]))
+        for m_ in re.finditer(r"[\"']⟦([^⟧|]+)(?:\|[^⟧]*)?⟧[\"']", flat_):
+            lit_plain.add(re.sub(r"([a-z0-9])([A-Z])", lambda mm: mm.group(1) + "_" + mm.group(2).lower(), m_.group(1).strip()))
+    ge2 = [f for f in S.fns if f.owner == "ZodBindingsGenerator" and f.name == "generate_enum_schema"]
+    if ge2 and lit_plain:
+        ps2 = ev.fn_paths(ge2[0])
+        lit_zod = {l[1] for l in (leaves(ps2[0][1]) if ps2 else []) if l[0] == "var" and l[1].startswith("field.")}
+        if lit_zod and lit_zod != lit_plain:
+            r2.bad(V(r2.id, "ZodBindingsGenerator::generate_enum_schema", "enum-literal-source:%s-vs-%s" % (",".join(sorted(lit_zod)), ",".join(sorted(lit_plain))),
+                     "the z.enum literals are %s while the plain union type prints %s: the schema accepts other strings than the declared type" % (sorted(lit_zod), sorted(lit_plain))))
+        elif lit_zod:
+            r2.ok("enum literals: both modes print %s" % sorted(lit_zod))
     pairs = [("typescript/partials/interface.tera", "zod/partials/schema.ts.tera", "struct field keys"),
              ("typescript/partials/param_interface.ts.tera", "zod/partials/param_schemas.ts.tera", "parameter keys")]
     for a, b, what in pairs:
